@@ -399,6 +399,13 @@ def _gen_copy(rng, tier):
         # typed partners that make the hinted variants refuse: int output for i, bool input for ob ...
         for _ in range(rng.choice([1, 1, 2])):
             g.connect_pair(c, rng.choice(pool))
+    # the source is also connected to itself (output -> own input, ran -> own run) in a share of the cases
+    if rng.random() < 0.35:
+        for _ in range(rng.choice([1, 1, 2])):
+            c = rng.choice(lay.own(src))
+            own_conj = [b for b in g.conj_of(c) if lay.rows[b][0] == src]
+            if own_conj:
+                g.connect_pair(c, rng.choice(own_conj))
     # pre-existing connections of the receiver: none / to unrelated channels / to the very partners the
     # copy is going to attempt / mixed
     pre = rng.choice(["none", "none", "unrelated", "same", "mixed"])
@@ -921,12 +928,15 @@ def run_impl(case):
                 else:
                     objs[op[2]].add_child(X)
             elif kind == "replace":
-                modelled = False
                 X = objs[op[1]]
                 if getattr(X, "parent", None) is None:
                     res = "skip"
                 else:
                     st["cand_clean"] = (getattr(objs[op[2]], "parent", None) is None and not objs[op[2]].connected)
+                    st["cand_connected"] = bool(objs[op[2]].connected)
+                    mine = set(lay.own(op[1]))
+                    st["old_conn"] = any(prev[c] for c in mine)
+                    st["old_self"] = any(b in mine for c in mine for b in prev[c])
                     X.parent.replace_child(X, objs[op[2]])
             elif kind == "start":
                 modelled = False
@@ -1024,6 +1034,10 @@ def run_impl(case):
                 stats["edit-while-running"] = stats.get("edit-while-running", 0) + 1
             if "f" in rs:
                 stats["edit-while-failed"] = stats.get("edit-while-failed", 0) + 1
+        if s["op"][0] == "replace" and s["res"] == "ok" and s.get("old_conn"):
+            stats["replace-seated"] = stats.get("replace-seated", 0) + 1
+            if s.get("old_self"):
+                stats["replace-seated-selfloop"] = stats.get("replace-seated-selfloop", 0) + 1
         if s["op"][0] in ("copyio", "replace") and s["res"] not in ("ok", "skip"):
             stats["copy-refused"] = stats.get("copy-refused", 0) + 1
         if s["res"] == "locked":
@@ -1047,11 +1061,22 @@ def _lines(s):
     if s["res"] == "malformed":
         return ["bad-op"]
     out = []
-    if s["op"][0] != "query":
+    if s["op"][0] == "replace":
+        out.append(f"{_replace_class(s)} - {_fmt_conns(s['snap'])}")
+    elif s["op"][0] != "query":
         out.append(f"{s['res']} {_fmt_rep(s['rep'])} {_fmt_conns(s['snap'])}")
     if s.get("flags") is not None:
         out.append(_fmt_flags(s["flags"]))
     return out
+
+
+def _replace_class(s):
+    """ok / connErr (the connection copy refused) / refused (a guard refused before anything was touched)"""
+    if s["res"] == "ok":
+        return "ok"
+    if s.get("exc") == "ConnectionCopyError":
+        return "connErr"
+    return "refused"
 
 
 def nontrivial(case, r):
@@ -1062,6 +1087,8 @@ def nontrivial(case, r):
 
 
 def _is_modelled(st):
+    if st["op"][0] == "replace":
+        return st["res"] != "skip"
     return st["modelled"] and st["res"] != "skip" and not st["res"].startswith("exc:")
 
 
@@ -1149,6 +1176,11 @@ def model_input(case, impl=None):
             lines.append(f"copyio {'hard' if hard else 'soft'} " + " ".join(_copyio_pairs(lay, op[2], op[3])))
         elif op[0] == "remove":
             lines.append("dropchans " + " ".join(map(str, lay.own(op[1]))))
+        elif op[0] == "replace":
+            # a guard that does not look at connections refused (ownership, type, value links: C13 / C14): observed
+            guard = _replace_class(st) == "refused" and not st.get("cand_connected")
+            lines.append(f"replace {0 if guard else 1} " + ",".join(map(str, lay.own(op[1]))) + " "
+                         + ",".join(map(str, lay.own(op[2]))) + " " + " ".join(_copyio_pairs(lay, op[2], op[1])))
     return lines
 
 
